@@ -565,14 +565,29 @@ func ruleGroupHash(c *Ctx, rule string) {
 			cmpDetail = x + " < " + y
 			px := strings.TrimPrefix(strings.SplitN(x, "[", 2)[0], "^")
 			py := strings.TrimPrefix(strings.SplitN(y, "[", 2)[0], "^")
-			okCmp = strings.HasSuffix(x, ".Index") && strings.HasSuffix(y, ".Index") && px == py && (px == sorted || strings.TrimPrefix(px, g+".") == strings.TrimPrefix(sorted, g+".")) && comparesSameSlice(less, sortCall, fn)
+			okCmp = less.Signature.Recv() == nil && strings.HasSuffix(x, ".Index") && strings.HasSuffix(y, ".Index") && px == py && (px == sorted || strings.TrimPrefix(px, g+".") == strings.TrimPrefix(sorted, g+".")) && comparesSameSlice(less, sortCall, fn)
 			if !okCmp && strings.HasSuffix(x, ".Index") && strings.HasSuffix(y, ".Index") {
 				// the comparator may index a local alias of the sorted slice (nodes := g.Nodes; sort.Slice(nodes, ...)): both
 				// indexed slices and the sorted one must be the same value once aliases are followed
 				sx, sy := indexedSliceOf(b.X), indexedSliceOf(b.Y)
 				if sx != nil && sy != nil {
 					cs := pathOf(canonValue(sortCall.Common().Args[0]))
-					okCmp = cs != "" && !strings.Contains(cs, "%") && pathOf(canonValue(sx)) == cs && pathOf(canonValue(sy)) == cs
+					px2, py2 := pathOf(canonValue(sx)), pathOf(canonValue(sy))
+					// a comparator that is a bound method (g.lessByIndex): its receiver is the object it was bound to
+					if less.Signature.Recv() != nil && len(less.Params) > 0 {
+						if mc, isMC := stripConv(sortCall.Common().Args[1]).(*ssa.MakeClosure); isMC && len(mc.Bindings) == 1 {
+							rn, bound := less.Params[0].Name(), pathOf(canonValue(mc.Bindings[0]))
+							if strings.HasPrefix(px2, rn+".") {
+								px2 = bound + strings.TrimPrefix(px2, rn)
+							}
+							if strings.HasPrefix(py2, rn+".") {
+								py2 = bound + strings.TrimPrefix(py2, rn)
+							}
+						} else {
+							px2, py2 = "%unbound", "%unbound"
+						}
+					}
+					okCmp = cs != "" && !strings.Contains(cs, "%") && px2 == cs && py2 == cs
 				}
 			}
 		})
